@@ -398,7 +398,7 @@ func init() {
 			return out
 		},
 		New:  func() Case { return &c17Any{} },
-		Rule: "programs mixing accepted and rejected calls through both API flavours: keys/values nil, empty, non-UTF-8, 64 KiB and longer, marker bytes, the empty key; observed directly, after forced rotation+flush, after clean reopen; plus sessions with rejected calls run under strace whose every kill image is re-opened (C02 machinery). Non-trivial: >=1 rejected and >=2 accepted puts.",
+		Rule: "also sessions with bursts of rotations that do not wait for the flusher, and crash sessions whose last log generation holds only deletes (each second kill image is recovered, killed idle and opened again); programs mixing accepted and rejected calls through both API flavours: keys/values nil, empty, non-UTF-8, 64 KiB and longer, marker bytes, the empty key; observed directly, after forced rotation+flush, after clean reopen; plus sessions with rejected calls run under strace whose every kill image is re-opened (C02 machinery). Non-trivial: >=1 rejected and >=2 accepted puts.",
 		Shrink: func(cs Case) []Case {
 			a := cs.(*c17Any)
 			if a.API == nil {
